@@ -70,7 +70,33 @@ def gen_plan(seed: int, tier: str) -> dict:
             op = {"op": "identify"}
         op["t"] = round(t, 3)
         ops.append(op)
-    return {"profile": profile, "ops": ops, "heal_at": t + 5.0, "end_at": t + 10.0, "tag_reads": False, "allow_other_exceptions": True}
+    end = t + 5.0
+    if r.random() < 0.35:
+        # several advertised addresses of different forms; the connection moves between them (peer closes, address
+        # becomes unreachable, zeroconf re-orders the list): every request must name the host it is actually sent to
+        others = r.sample([h for h in HOSTS if h != host], r.choice([1, 2]))
+        addrs = [host] + others
+        profile["hosts"] = [[h, "genuine"] for h in addrs]
+        extra = []
+        tt = 0.3
+        for _ in range(r.randint(1, 4)):
+            tt = round(tt + r.choice([0.2, 1.0, 3.0]), 3)
+            y = r.random()
+            if y < 0.4:
+                extra.append({"op": "set_host", "host": r.choice(addrs), "kind": r.choice(["refuse", "unreachable", "genuine"]), "t": tt})
+                extra.append({"op": r.choice(["rst", "fin"]), "t": round(tt + 0.001, 3)})
+            elif y < 0.7:
+                extra.append({"op": "desc_update", "addrs": r.sample(addrs, len(addrs)), "s": r.randrange(1, 4), "t": tt})
+                extra.append({"op": r.choice(["rst", "fin"]), "t": round(tt + 0.001, 3)})
+            else:
+                extra.append({"op": r.choice(["rst", "fin"]), "t": tt})
+            tt = round(tt + r.choice([0.5, 2.0]), 3)
+            ids = r.sample(readable, 2)
+            extra.append({"op": "get", "ids": [list(i) for i in ids], "t": tt})
+            extra.append({"op": "put", "items": [[a, i, rnd_json(r)] for a, i in r.sample(writable, 1)], "t": round(tt + 0.7, 3)})
+        ops = sorted(ops + extra, key=lambda o: o["t"])
+        end = max(end, tt + 15.0)
+    return {"profile": profile, "ops": ops, "heal_at": end, "end_at": end + 20.0, "tag_reads": False, "allow_other_exceptions": True, "no_liveness": True}
 
 
 def execute(plan, ch):
